@@ -24,6 +24,7 @@ import (
 	"regexp"
 	"strings"
 	"testing"
+	"unicode/utf8"
 
 	"verif/engine/enum"
 	"verif/engine/rep"
@@ -35,6 +36,7 @@ import (
 	"github.com/google/trillian/crypto/keyspb"
 	"google.golang.org/protobuf/encoding/prototext"
 	"google.golang.org/protobuf/proto"
+	"google.golang.org/protobuf/types/known/anypb"
 	"k8s.io/klog/v2"
 )
 
@@ -131,6 +133,63 @@ func (c *checker) withFile(data []byte, f func(path string)) {
 }
 
 var textOpts = prototext.MarshalOptions{Multiline: true}
+
+// partC: the file loaders reproduce the message written, whatever its bytes look like. Part A's binary files all hold a
+// DER key (so they are never text); here the messages are small and key-file based, so that their binary form consists of
+// bytes below 0x80 only (valid UTF-8, even printable in places), and each is also written in text form.
+func (c *checker) partC() {
+	keyFile := func(path string) *anypb.Any {
+		a, err := anypb.New(&keyspb.PEMKeyFile{Path: path, Password: "pw"})
+		if err != nil {
+			panic(err)
+		}
+		return a
+	}
+	mk := func(id int64, prefix, backend string) *configpb.LogConfig {
+		return &configpb.LogConfig{LogId: id, Prefix: prefix, LogBackendName: backend, RootsPemFile: []string{"roots.pem"}, PrivateKey: keyFile("k" + prefix + ".pem")}
+	}
+	sets := []*configpb.LogConfigSet{
+		{Config: []*configpb.LogConfig{mk(1, "a", "")}},
+		{Config: []*configpb.LogConfig{mk(1, "a", "b"), mk(2, "b", "b")}},
+		{Config: []*configpb.LogConfig{{LogId: 7, Prefix: "p"}}},
+		{Config: []*configpb.LogConfig{mk(3, "c", "b"), {LogId: 4, Prefix: "d", LogBackendName: "b", IsMirror: true, MaxMergeDelaySec: 100, ExpectedMergeDelaySec: 10}}},
+	}
+	for si, set := range sets {
+		multi := &configpb.LogMultiConfig{Backends: &configpb.LogBackendSet{Backend: []*configpb.LogBackend{{Name: "b", BackendSpec: "spec"}}}, LogConfigs: set}
+		setBin, setTxt := marshalForms(set)
+		mBin, mTxt := marshalForms(multi)
+		for _, b := range [][]byte{setBin, mBin} {
+			if utf8.Valid(b) {
+				c.r.Add("part_c_binary_files_that_are_valid_utf8", 1)
+			} else {
+				c.r.Add("part_c_binary_files_with_a_byte_above_0x7f", 1) // (a nested message of 128 bytes or more: still loaded and compared)
+			}
+		}
+		for _, f := range []struct {
+			form     string
+			set, mul []byte
+		}{{"binary-file whose bytes are valid UTF-8", setBin, mBin}, {"text-file", setTxt, mTxt}} {
+			c.r.Eval(2)
+			c.r.Nontrivial(fmt.Sprintf("partC|%d|%s", si, f.form))
+			c.withFile(f.set, func(p string) {
+				var got []*configpb.LogConfig
+				var err error
+				pan, msg, _ := enum.Catch(func() { got, err = ctfe.LogConfigFromFile(p) })
+				if pan || err != nil || !proto.Equal(&configpb.LogConfigSet{Config: got}, set) {
+					c.r.Violation("file loader does not reproduce the message ("+f.form+")", fmt.Sprintf("LogConfigFromFile of set %d (%d bytes): panic=%v %s err=%v", si, len(f.set), pan, msg, err), map[string]any{"file_hex": fmt.Sprintf("%x", f.set)})
+				}
+			})
+			c.withFile(f.mul, func(p string) {
+				var got *configpb.LogMultiConfig
+				var err error
+				pan, msg, _ := enum.Catch(func() { got, err = ctfe.MultiLogConfigFromFile(p) })
+				if pan || err != nil || !proto.Equal(got, multi) {
+					c.r.Violation("file loader does not reproduce the message ("+f.form+")", fmt.Sprintf("MultiLogConfigFromFile of set %d (%d bytes): panic=%v %s err=%v", si, len(f.mul), pan, msg, err), map[string]any{"file_hex": fmt.Sprintf("%x", f.mul)})
+				}
+			})
+		}
+	}
+}
 
 func marshalForms(m proto.Message) (bin, txt []byte) {
 	bin, err := proto.Marshal(m)
@@ -389,6 +448,7 @@ func TestCheck(t *testing.T) {
 	)
 	c.partA(maxDev)
 	c.partB()
+	c.partC()
 	// deterministic samples: the five baselines with their verdicts
 	for i := range baselines {
 		cfg, tr := build(baselines[i].idx)
